@@ -36,10 +36,10 @@ TIERS = {
         mc_timeout=900,
     ),
     "thorough": dict(
-        mc=dict(MaxTypes=2, MaxFields=3, MaxEdits=4, StructSizes=[0, 1, 2, 8, 9], BitsSizes=[0, 1, 32, 64, 65],
+        mc=dict(MaxTypes=2, MaxFields=3, MaxEdits=3, StructSizes=[0, 1, 2, 8, 9], BitsSizes=[0, 1, 32, 57, 64, 65],
                 EnumMaxBits=[0, 8]),
-        cat=dict(MaxTypes=3, MaxFields=3, MaxEdits=4, ContextFirst=True, per_stratum=40, cap=40000),
-        sim=dict(procs=12, walks=40, walk=True, MaxTypes=5, MaxFields=5, MaxEdits=8, per_stratum=25, cap=40000),
+        cat=dict(MaxTypes=2, MaxFields=3, MaxEdits=3, ContextFirst=True, per_stratum=60, cap=30000),
+        sim=dict(procs=12, walks=12, walk=True, MaxTypes=5, MaxFields=5, MaxEdits=8, per_stratum=12, cap=30000),
         reserved_sample=None,
         mc_timeout=3000,
     ),
@@ -49,6 +49,10 @@ STRUCT_SIZES = [0, 1, 2, 3, 4, 8, 9]
 BITS_SIZES = [0, 1, 2, 7, 8, 16, 31, 32, 33, 56, 57, 63, 64, 65]
 ENUM_MAXBITS = [0, 1, 8, 63, 64]
 CANON = {"snake": ["class"], "camel": ["Self"], "shouty": ["NULL"]}
+ALL_RULES = ["scalar_width", "flag_width", "float_width", "enum_field_width", "explicit_size_mismatch",
+             "field_too_small", "byte_type_in_bits", "array_element_not_fixed", "array_element_not_byte_multiple",
+             "array_inner_length", "byte_order_missing", "byte_order_null", "bits_not_fixed", "bits_too_big",
+             "enum_value_range", "attr_context", "attr_value", "attr_duplicate", "reserved_name"]
 
 
 def _tla_set(xs):
@@ -133,7 +137,9 @@ def _gen_sim_one(chk, sc, c, words, reserved, seed, k):
     chk.add_tlc(res, part="sim-gen")
     if res.rc != 0:
         raise MachineryError("generator failed:\n" + res.error_trace_tail(40))
-    return res.printed_json()
+    got = _dedupe(res.printed_json())
+    sel, _ = _stratify(got, c["per_stratum"], c["cap"], seed * 1000 + k)   # keep memory bounded
+    return [len(got)] + sel
 
 
 def _replay(cases):
@@ -208,7 +214,8 @@ def _report(chk, records, verdicts):
                                        "contains the offending construct: %s" % (sorted({f["rule"] for f in r["_fails"]}), errs),
         }.get(v["clause"], v["clause"])
         chk.violation(key, "%s [last edit %s]\n%s\n--- m.emb ---\n%s" % (key, r["cls"], what, r["_text"]),
-                      {"case": {k: x for k, x in r.items() if not k.startswith("_")}, "emb": r["_text"]})
+                      {"case": {k: x for k, x in r.items() if not k.startswith("_")}, "emb": r["_text"],
+                       "base_emb": r["_base_text"], "fails": r["_fails"]})
 
 
 def _selftest(chk, sc, records, reserved):
@@ -308,7 +315,8 @@ def run(chk, only=None):
                                                           "shouty": len(rw["shouty"])}
                 cases += got
             elif name == "sim":
-                simgot += got
+                chk.extra["sim_programs_generated"] = chk.extra.get("sim_programs_generated", 0) + got[0]
+                simgot += got[1:]
         if simgot:
             simgot = _dedupe(simgot)
             chk.extra["sim_programs"] = len(simgot)
@@ -330,9 +338,32 @@ def run(chk, only=None):
                 for f in c["fails"]:
                     rules[f["rule"]] = rules.get(f["rule"], 0) + 1
             chk.extra["cases_per_broken_rule"] = dict(sorted(rules.items()))
+            chk.extra["rules_never_broken"] = [r for r in ALL_RULES if r not in rules]
             for r in [x for x in recs if x["gok"]][:2] + [x for x in recs if not x["gok"]][:3]:
                 chk.sample({"last_edit": r["cls"], "realisable": r["gok"], "accepted": r["obs"]["acc"],
                             "broken": sorted({f["rule"] for f in r["_fails"]}), "emb": r["_text"].splitlines()[:14]})
             if "selftest" in parts:
                 timed("selftest", _selftest, chk, sc, recs, reserved)
         chk.evaluations = chk.traces
+
+
+def replay(chk, path):
+    """Re-decide one stored violation against the repo's current working tree."""
+    with open(path) as f:
+        stored = json.load(f)
+    payload = stored["case"]
+    emb, base_emb = payload["emb"], payload.get("base_emb", payload["emb"])
+    r, rb = typing_pool.compile_all([(0, {"m.emb": emb}, "m.emb"), (1, {"m.emb": base_emb}, "m.emb")])
+    rec = dict(payload["case"])
+    rec["tid"] = 0
+    rec["obs"] = {"acc": r["acc"], "exc": r["exc"],
+                  "errs": [{"l1": e["l1"], "l2": e["l2"], "syn": e["syn"], "main": e["main"]} for e in r["errs"]]}
+    rec["bacc"] = rb["acc"]
+    rec.update({"_text": emb, "_errs": r["errs"], "_exc_text": r["exc_text"], "_base_text": base_emb,
+                "_fails": payload.get("fails", [])})
+    reserved = layout_render.reserved_words()["all"]
+    with Scratch("c14r") as sc:
+        verdicts, total, _ = _decide(chk, sc, [rec], "replay", reserved, nshards=1)
+        _report(chk, [rec], verdicts)
+        chk.traces = chk.evaluations = total
+        chk.rule = "replay of %s" % stored.get("key")
